@@ -331,6 +331,7 @@ pub fn edited_case() -> impl Strategy<Value = EditedBox> {
 }
 
 pub fn run(env: &Env, rep: &Report) {
+    stall_watchdog(300);
     rep.set_rule("boxes with positive size over 1e-2..1e4 and any angle; equality pairs differing in exactly one coordinate by +-delta across the EPS boundary and pairs differing in several coordinates at once (each within EPS, or one beyond), both argument orders, both box types; angles to |a|<=1e3 and around multiples of pi/2. Non-trivial: rotated polygon; equality pair outside the 0.9..1.1 EPS band with non-zero difference; angle outside [0,2pi); distinct = distinct serialized case");
     rep.assume("equality threshold is three-valued: |difference| in [0.9 EPS, 1.1 EPS] accepts either answer");
     let w = workers();
